@@ -16,12 +16,12 @@ META = {
     "coq_targets": ["Props/Properties_C19.vo", "Engine/EvacCheck.vo"],
     "coq_files": ["Engine/Model.v", "Engine/Spec.v", "Engine/Check.v", "Engine/Gc.v", "Engine/Check8.v", "Engine/GetProofs.v",
                   "Engine/LockProofs.v", "Gen/EngineConsts.v", "Engine/Evac.v", "Engine/EvacSpec.v", "Engine/EvacCheck.v",
-                  "Engine/EvacProofs.v", "Engine/EvacPreserved.v", "Engine/EvacStatus.v", "Engine/EvacTomb.v", "Engine/EvacWitness.v",
+                  "Engine/EvacProofs.v", "Engine/EvacPreserved.v", "Engine/EvacStatus.v", "Engine/EvacTomb.v", "Engine/EvacLock.v", "Engine/EvacWitness.v",
                   "Props/Properties_C19.v"],
     "theorems": ["C19_listing_is_filter", "C19_sources_unchanged", "C19_moved",
                  "C19_preserved_partial", "C19_preserved_refuted", "C19_preserved_refuted_separated_lock",
                  "C19_records_from_before", "C19_tombstone_not_created", "C19_tombstone_kept_partial",
-                 "C19_status_unchanged_refuted"],
+                 "C19_lock_status_partial", "C19_status_unchanged_refuted"],
     "technique": "Coq proof by invariant over the whole evacuation loop (every source subset and order incl. duplicates, every "
                  "listing order, every HRW order per object, every shard content / mode / fault flag / error threshold, with and "
                  "without ignoreErrors and fault handler) about an executable model of StorageEngine.Evacuate on top of the engine "
@@ -43,10 +43,13 @@ META = {
                   "lists and serves is handed or stored with its record by a remaining shard (premise PT: one header per ID, no "
                   "remaining shard in degraded read-write mode or holding the tombstone's data without its record). "
                   "C19_status_unchanged_refuted: the status equality fails - ignoreErrors skips an unreadable tombstone object and "
-                  "Evacuate still reports success. NOT proved as a theorem: equality of the LOCK status (checked on the real engine "
+                  "Evacuate still reports success. C19_lock_status_partial: the 'not lost' direction for the lock status - a lock object a source "
+                  "lists and serves is handed or a remaining shard reports its target as locked afterwards (class PT, no tombstone for the lock "
+                  "object on any shard, no default garbage mark for it on a remaining shard, lock not expired). NOT proved as a theorem: the "
+                  "'not created' direction and hence the equality of the LOCK status (checked on the real engine "
                   "by the correspondence run only, class c19_status_good).",
     "level_note": "partial: the status-unchanged clause is proved for the tombstone status (not created: all inputs; not lost: "
-                  "class PT) but NOT for the lock status, which is only tied differentially. The unrestricted preservation statement is false for the real engine (known findings "
+                  "class PT); for the lock status only the 'not lost' direction is proved (C19_lock_status_partial, class PT + the lock object is not in garbage + not expired), the 'not created' direction and the equality are only tied differentially. The unrestricted preservation statement is false for the real engine (known findings "
                   "lock-kept-object-not-evacuated, lock-separated-from-object; the silent skip of a source shard without metabase was "
                   "repaired); proved for the complementary class. Modelled, not verified: shard internals (metabase status rules, blob "
                   "storage) are the abstract hand-written model of C20/C08 tied by the differential check only; the listing is "
